@@ -136,8 +136,8 @@ def temporalOk : Option (Option (List Nat)) → Nat → Prop
 theorem allows_temporalStage (c : Option (List Nat)) (t : Option (Option (List Nat))) (a : Nat) :
     allows (temporalStage c t) a = true ↔ passes c a = true ∧ temporalOk t a := by
   match t with
-  | none => simp [temporalStage, allows, temporalOk]; cases c <;> simp [allows, passes]
-  | some none => simp [temporalStage, allows, temporalOk]; cases c <;> simp [allows, passes]
+  | none => simp [temporalStage, allows, temporalOk]; cases c <;> simp [passes]
+  | some none => simp [temporalStage, allows, temporalOk]; cases c <;> simp [passes]
   | some (some l) =>
     by_cases hl : l.isEmpty = true
     · have : l = [] := by simpa using hl
@@ -460,8 +460,9 @@ theorem C11_mono_page_counterexample : ¬ C11_mono_page_full := by
 
 /-- the `doc_limit` form: 21 matching frames ranked 0,1,…,20, `top_k = 1` (doc_limit = 20), paging
     that shows the newest evaluated document (recency re-sort): the unfiltered page shows frame 19
-    — frame 20 is cut by doc_limit — while `as_of_frame = 20 … ` behaves alike; with
-    `as_of_frame = 3` the page shows frame 3, which the unfiltered page did not show. -/
+    (frame 20, the newest match, is cut by doc_limit before the re-sort); with `as_of_frame = 3`
+    the page shows frame 3, which the unfiltered page did not show.  Observed on the real code
+    with 30 such frames (harness fixed corpus, file 2). -/
 theorem C11_mono_page_counterexample_doc_limit :
     let frames : List Frame := (List.range 21).map fun i => ⟨i, 100 + i, true⟩
     let rank := List.range 21
